@@ -4,6 +4,7 @@ import AJ
 import AJ.Model.JDD
 import AJ.Model.MDD
 import AJ.Model.JDDF
+import AJ.Model.MDDF
 open JD
 
 def hexDigit (n : Nat) : Char := if n < 10 then Char.ofNat (48 + n) else Char.ofNat (87 + n)
@@ -192,6 +193,19 @@ def handle (st : DState) (ws : List String) : String × DState :=
       match docOfSpec spec with
       | none => pure "bad-doc"
       | some v => pure s!"1 {hexBytes (CA.copyStr v (List.replicate n.toNat! 0x5A))}"
+  | "mpdocf" :: lim :: pre :: fail :: fhex :: hex :: geo =>
+      -- slot-level FILTERED deserializeMsgPack (AJ/Model/MDDF.lean) with the allocator log
+      let (g, so, maxStr) := docGeo geo
+      let (_, fv, _) := run {} 20 (unhex fhex)
+      let d0 := DH.newDocG g so 0
+      let d0 := if pre == "1" then (JDD.run {} 10 d0 "[1,\"abc\",{\"k\":2,\"abc\":12345678901}]".toUTF8.toList).2.1 else d0
+      let d0 := { d0 with pl := { d0.pl with log := [] } }
+      let k := (fail.drop 1).toString.toNat!
+      let d0 := if fail.startsWith "a" then { d0 with pl := { d0.pl with failAt := [d0.pl.calls + k] } }
+                else if fail.startsWith "f" then { d0 with pl := { d0.pl with failFrom := some (d0.pl.calls + k) } } else d0
+      let (c, d, pos) := MDDF.run { maxStrLen := maxStr } lim.toNat! (.doc (some fv)) d0 (unhex hex)
+      let log := " ".intercalate (d.pl.log.reverse.map (fun e => s!"a0:{e}"))
+      pure s!"{showCode c} {d.show d.root} {pos} o={if d.overflowed then 1 else 0}|{log}"
   | "mpdoc" :: lim :: pre :: fail :: hex :: geo =>
       let (g, so, maxStr) := docGeo geo
       let d0 := DH.newDocG g so 0
